@@ -2,7 +2,9 @@
 
    The machine never looks inside the pool; it uses it through three labels: OAlloc r g (mRawMemPool.Allocate returned
    buffer r), OFree g / ORemove r g (mRawMemPool.Deallocate(r); the pool may overwrite the buffer with g).  The exact
-   assumptions, and the C09 theorem that discharges each (props/C09/coq/Properties_C09.v; no cross-directory Require):
+   assumptions, and the C09 theorem that STATES each (props/C09/coq/Properties_C09.v).  These are citations, not imports: there is no
+   cross-directory Require, so for C19's Coq development A_cells, A_reuse and A_owner remain assumptions (A_fresh is an explicit Section
+   hypothesis, A_size is proved in RawPoolSize.v):
 
    A_fresh     Allocate never returns a block that is outstanding (allocated and not yet deallocated).
                = hypothesis A_fresh below; it is the ONLY thing `step` asks of OAlloc (status r = Free).
